@@ -193,7 +193,6 @@ func InitStruct(s *Struct) *Val {
 	return v
 }
 
-
 // NilRequired reports whether encoding v writes a nil pointer to a struct that declares required
 // fields: the encoder writes such a pointer as an empty struct (C02), which the decoder must then
 // reject for the missing required fields (C09) - the value is outside the round-trip domain of C01.
